@@ -41,7 +41,9 @@ PARAMS = ("buRate", "axMesh")
 # core positions 1..7 of the specification -> (i, j) hex indices of the smallest reactor's full-core grid
 LOCS = [(0, 0), (1, 0), (0, 1), (-1, 1), (-1, 0), (0, -1), (1, -1)]
 NOBJ_MAX = 4
-HEAVY = ("hist", "hpos", "hsel", "hloc", "htrk")  # observation fields that cost one history query each (htrk = hbv + hts)
+# observation fields that cost one history query each (htrk = hbv + hts: the history tracker; hdi = hdi + hdi1 + hdil: the
+# wrappers of DatabaseInterface)
+HEAVY = ("hist", "hpos", "hsel", "hloc", "htrk", "hdi")
 
 
 # ============================================================================================================
@@ -79,6 +81,7 @@ class DbAdapter:
         self.first = r.core[0]
         self.asm, self.blk, self.by_serial = {}, {}, {}
         self.pdefs = [self.first[0].p.paramDefs[name] for name in PARAMS]
+        self.bp_height = list(r.blueprints.assemDesigns[self.first.getType()].height)
         self.home = os.getcwd()
         self.nworld = 0
         self._dumps = {}
@@ -124,17 +127,33 @@ class DbAdapter:
         return LOCS.index(ij) + 1 if ij in LOCS else self.odd("location %r" % ([int(x) for x in ijk],))
 
     def create(self, k):
-        """Object k enters the history: object 1 is the assembly of the input; every other one is constructed now from the
-        blueprints, so it is a new identity (fresh serial numbers) -- in particular after a snapshot has been loaded."""
-        a = self.first if k == 1 else self.r.blueprints.constructAssem(self.cs, name=self.first.getType())
+        """Object k enters the history: it is constructed now from the blueprints, so it is a new identity (fresh serial
+        numbers) -- in particular after a snapshot has been loaded -- and nothing has ever assigned its first parameter."""
+        a = self.r.blueprints.constructAssem(self.cs, name=self.first.getType())
         self.asm[k], self.blk[k] = a, a[0]
         sn = int(a[0].p.serialNum)
         if sn in self.by_serial:
             self.clash = "object %d was created with the serial number %d of live object %d" % (k, sn, self.by_serial[sn])
         self.by_serial[sn] = k
-        for p in (1, 2):
-            a[0].p[PARAMS[p - 1]] = self.real(p, 0)
+        a[0].p[PARAMS[1]] = self.real(2, 0)  # the blueprints give it a value; parameter 1 is left as it is: never assigned
         return a
+
+    def seen(self, r2):
+        """What a load returned: {cyc, nod, st, bp}; afterwards everything it returned is overwritten (parameters of its blocks
+        and its blueprints), so that a later load that shares anything with it shows."""
+        out = {"cyc": int(r2.p.cycle), "nod": int(r2.p.timeNode), "st": self.state_view(r2)}
+        design = r2.blueprints.assemDesigns[self.first.getType()] if r2.blueprints is not None else None
+        out["bp"] = 0 if design is not None and list(design.height) == self.bp_height and r2.blueprints is not self.r.blueprints \
+            else self.odd("blueprints of the loaded reactor: %r" % (design and list(design.height),))
+        try:
+            for a in r2.core:
+                for b in a:
+                    b.p[PARAMS[1]] = 77  # (not parameter 1: assigning it anywhere would end its "never assigned" state)
+        except Exception:  # noqa: BLE001 -- a read-only reactor refuses
+            pass
+        if design is not None:
+            design.height[0] = 99.0
+        return out
 
     def locator(self, l):
         i, j = LOCS[l - 1]
@@ -154,12 +173,18 @@ class DbAdapter:
             core.removeAssembly(a, discharge=False)
         w.live = set()
         self.asm, self.blk, self.by_serial, self.clash = {}, {}, {}, None
+        # every history starts like a fresh process: no object has assigned parameter 1 yet (armi keeps "somebody has assigned
+        # this parameter" per definition for the life of the process and leaves never-assigned parameters out of a snapshot)
+        from armi.reactor import parameters
+
+        self.pdefs[0].assigned = parameters.NEVER
         for k, flag in enumerate(root["live"], start=1):
             if not flag:
                 continue
             a = self.create(k)
             for p in range(1, self.npar + 1):
-                a[0].p[PARAMS[p - 1]] = self.real(p, root["par"][k - 1][p - 1])
+                if root["par"][k - 1][p - 1]:
+                    a[0].p[PARAMS[p - 1]] = self.real(p, root["par"][k - 1][p - 1])
             core.add(a, self.locator(root["loc"][k - 1]))
             w.live.add(k)
         self.cs["reloadDBName"] = ""
@@ -244,7 +269,7 @@ class DbAdapter:
                     raise AssertionError("loadState did not attach a loaded reactor")
             else:
                 r2 = w.A.load(a["c"], a["t"], statePointName=a["l"] or None, cs=self.cs)
-            w.res = {"kind": "load", "cyc": int(r2.p.cycle), "nod": int(r2.p.timeNode), "st": self.state_view(r2)}
+            w.res = dict(self.seen(r2), kind="load")
         elif n == "Rotate":
             w.A.close(a["ok"])
             w.bpath, w.bstate = os.path.join(w.dir, "f%d.h5" % w.nfile), "closed"
@@ -343,11 +368,26 @@ class DbAdapter:
             if "htrk" in want:
                 query("hbv", lambda: self.tracker_values(w, out["names"]))
                 query("hts", lambda: [self.step_of_time(t) for t in w.tracker.getTimeSteps()])
+            if "hdi" in want:
+                now = (int(r.p.cycle), int(r.p.timeNode))
+                plain = [(c, n) for c, n, lab in reversed(out["names"]) if lab == ""]
+                ask = plain + ([] if now in plain else [now])
+                out["ask"] = [list(x) for x in ask]
+
+                def single(steps):
+                    # DatabaseInterface.getHistory, one block at a time
+                    return self._hist_rows(w, {self.blk[k]: w.dbi.getHistory(self.blk[k], names, list(steps)) for k in sorted(w.live)},
+                                           self.blk, cols, self.token)
+
+                query("hdi", lambda: single(ask))
+                query("hdi1", lambda: single([now]))
+                query("hdil", lambda: self._hist_rows(w, w.dbi.getHistories(blocks, names, list(ask), byLocation=True), self.blk, cols,
+                                                      self.token))
             if "hloc" in want:
                 query("hloc", lambda: self._hist_rows(w, db.getHistoriesByLocation(blocks, names), self.blk, cols, self.token))
         else:
             out.update({"steps": [], "names": [], "has": [], "hist": [], "hpos": [], "sel": [], "hsel": [], "hloc": [], "hbv": [],
-                        "hts": []})
+                        "hts": [], "ask": [], "hdi": [], "hdi1": [], "hdil": []})
         empty = {"ok": False, "names": [], "snaps": []}
         if "dumpA" in want:
             out["dumpA"] = self.dump(w.apath) if w.astate == "closed" else empty
@@ -410,7 +450,7 @@ class DbAdapter:
                     # the two entry points of Database in turn
                     r2 = db.load(c, n, statePointName=lab or None, cs=self.cs) if i % 2 == 0 else \
                         db.loadReadOnly(c, n, statePointName=lab or None)
-                    snaps.append({"cyc": int(r2.p.cycle), "nod": int(r2.p.timeNode), "st": self.state_view(r2)})
+                    snaps.append(self.seen(r2))
                 self._dumps = {key: {"ok": bool(db.h5db.attrs["successfulCompletion"]), "names": names, "snaps": snaps}}
         return self._dumps[key]
 
@@ -557,7 +597,7 @@ def emitted_graph(prints):
     return g, obs_of
 
 
-FIELD_GROUP = {"hist": "history", "hpos": "history", "hsel": "history", "hloc": "history", "hbv": "history", "sel": "history",
+FIELD_GROUP = {"hdi": "history", "hdi1": "history", "hdil": "history", "ask": "history", "hist": "history", "hpos": "history", "hsel": "history", "hloc": "history", "hbv": "history", "sel": "history",
                "hts": "getTimeSteps", "steps": "listing", "names": "listing", "has": "listing"}
 
 
@@ -585,7 +625,7 @@ def div_key(d):
 
 # -- code -> spec ---------------------------------------------------------------------------------------------
 TRACE_CONST = {"NObj": 4, "NInit": 2, "NLoc": 5, "NVal": 3}
-TRACE_LABELS = ("", "EOL", "error", "x")
+TRACE_LABELS = ("", " sp", "-special", ".v2", "EOL", "error", "x")  # = DbHistory!ProbeLabels, in ASCII order
 
 
 def trace_driver(ad, ntraces, nev, seed, first=0):
@@ -646,7 +686,7 @@ def trace_driver(ad, ntraces, nev, seed, first=0):
                     a = {"n": "Advance", "c": c, "t": n}
                 elif x < 0.82:
                     if len(listing) < 38:
-                        a = {"n": "Write", "l": rng.choice(TRACE_LABELS[:2] * 3 + TRACE_LABELS)}
+                        a = {"n": "Write", "l": rng.choice(("", "", "", "EOL") + TRACE_LABELS)}
                 elif x < 0.88:
                     if listing:
                         c, n, lab = rng.choice(listing)
@@ -744,9 +784,10 @@ class _FaultSink(list):
     """The call sink of gen_operator's recording interfaces: every hook of an "f" interface reports here first.  The hook named by
     `plan` fails; every other one changes the reactor state (one more unit on the tracked block parameter)."""
 
-    def __init__(self, o, plan, kind="CustomError", probe=None):
+    def __init__(self, o, plan, kind="CustomError", probe=None, touch=None):
         list.__init__(self)
         self.o, self.plan, self.kind, self.fired = o, plan, kind, False
+        self.touch = touch  # stack position of the interface that stores auxiliary data under the current node, or None
         self.probe, self.probes = probe, []  # probe = (stack position of the asking interface, nodes of the history) or None
 
     def ask(self, ev):
@@ -772,6 +813,11 @@ class _FaultSink(list):
             self.fired = True
             _raise(self.kind, self.plan)
         # (the end-of-cycle dispatch nested in MainInterface.interactBOL of a restart comes before any BOL hook: not a probe point)
+        if self.touch == ev["i"] and ev["e"] == "EN":
+            # another interface places data of its own under the current time step, the documented way, before the database
+            # interface has written the node
+            group = self.o.getInterface("database").database.getH5Group(self.o.r)
+            group.create_dataset("auxOfInterface%d" % ev["i"], data=[float(ev["rc"]), float(ev["rn"])])
         if self.probe and ev["i"] == self.probe[0] and ev["e"] in ("EOC", "EOL") and any(x["e"] == "BOL" for x in self):
             self.ask(ev)
         block = self.o.r.core[0][0]  # the operator's current reactor (a restart replaces it by the loaded one)
@@ -841,7 +887,8 @@ class RunAdapter:
         if reload_name:
             nodes = [(c, n) for c, b in enumerate(run["steps"]) for n in range(b + 1)]
             probe = (roles.index("f") + 1, nodes)
-        sink = _FaultSink(o, plan, cr.get("kind", "CustomError"), probe)
+        touch = roles.index("f") + 1 if run.get("touch") else None
+        sink = _FaultSink(o, plan, cr.get("kind", "CustomError"), probe, touch)
         dbi = None
         for k, role in enumerate(roles, start=1):
             if role == "main":
@@ -889,17 +936,25 @@ class RunAdapter:
             names = [DbAdapter.parse_name(g) for g in db.keys()]
             for (c, n, lab), pr in zip(names, pairs):
                 g = db.h5db["c%02dn%02d%s" % (c, n, lab)]
-                snap = {"c": int(g["Reactor/cycle"][0]), "n": int(g["Reactor/timeNode"][0]), "lab": lab,
-                        "val": int(round(float(g["HexBlock/" + PARAMS[0]][0])))}
+                try:
+                    snap = {"c": int(g["Reactor/cycle"][0]), "n": int(g["Reactor/timeNode"][0]), "lab": lab,
+                            "val": int(round(float(g["HexBlock/" + PARAMS[0]][0]))) if PARAMS[0] in g["HexBlock"] else 0}
+                    if "layout" not in g:
+                        raise KeyError("layout")
+                except KeyError as ex:  # a listed step that holds no (complete) reactor state cannot be loaded
+                    snap = {"c": c, "n": n, "lab": lab, "val": -1, "unloadable": "no %s in the group" % ex}
                 if (snap["c"], snap["n"]) != (c, n) or tuple(int(x) for x in pr) != (c, n):
                     snap["name"] = [c, n, [int(x) for x in pr]]
                 snaps.append(snap)
             if names:
                 c, n, lab = names[-1]
-                r2 = db.load(c, n, statePointName=lab or None, cs=self.rig.cs)
-                got = int(round(float(r2.core[0][0].p[PARAMS[0]])))
-                if got != snaps[-1]["val"] or (int(r2.p.cycle), int(r2.p.timeNode)) != (c, n):
-                    snaps[-1]["loaded"] = [int(r2.p.cycle), int(r2.p.timeNode), got]
+                try:
+                    r2 = db.load(c, n, statePointName=lab or None, cs=self.rig.cs)
+                    got = int(round(float(r2.core[0][0].p[PARAMS[0]])))
+                    if got != snaps[-1]["val"] or (int(r2.p.cycle), int(r2.p.timeNode)) != (c, n):
+                        snaps[-1]["loaded"] = [int(r2.p.cycle), int(r2.p.timeNode), got]
+                except Exception as ex:  # noqa: BLE001 -- a listed step that does not load is an observation
+                    snaps[-1]["loaded"] = "%s: %s" % (type(ex).__name__, str(ex)[:120])
         return {"exists": True, "ok": ok, "snaps": snaps}
 
 
@@ -1200,7 +1255,16 @@ def run(rep, tier, seed, parts=("db", "run")):
     rep.assume(
         "tracked objects = assemblies of the smallest test reactor's blueprint (one block each); parameter 1 = Block.%s (numeric "
         "default), parameter 2 = Block.%s (default None); values are small numbers different from the defaults" % PARAMS,
-        "cycle / node < 100 (two-digit group names); labels '' < 'EOL' < 'error' < 'x' (ASCII order of the group names)",
+        "cycle / node < 100 (two-digit group names); labels '' < ' sp' < '-special' < '.v2' < 'EOL' < 'error' < 'x' (ASCII order of "
+        "the group names; state-point names are free text, the documentation's own example is '-special')",
+        "every history starts like a fresh process: tracked objects are constructed when they enter the history and the adapter "
+        "resets armi's per-definition 'somebody has assigned this parameter' flag of parameter 1 (global state armi keeps), so the "
+        "first snapshots hold no column for it and both load and every history must answer with the default",
+        "DatabaseInterface.getHistory / getHistories report the live value under the current step whenever it is requested, "
+        "written or not; everything a load returned (block parameters, blueprints) is overwritten by the adapter after it has "
+        "been looked at: later loads must not show it",
+        "in the uncoupled runs with a MainInterface the first application interface stores auxiliary data under the current node "
+        "through Database.getH5Group(r) before the database interface writes the node",
         "genTimeSteps lists a labelled snapshot under its (cycle, node) again (DESIGN S13): 'listed' = that sequence, its set of "
         "pairs is exactly the set of pairs written; a history reports one value per pair, the last-named snapshot winning",
         "getHistories appends the live value under the reactor's current (cycle, node) when the object has stored entries and none "
@@ -1449,6 +1513,22 @@ def selftest():
             return
         orig_en(self, cycle, node)
 
+    orig_load_bp = D.loadBlueprints
+
+    def load_blueprints_cached(self):
+        if getattr(self, "_c06_blueprints", None) is None:
+            self._c06_blueprints = orig_load_bp(self)
+        return self._c06_blueprints
+
+    def every_node_skips_existing_group(self, cycle, node):
+        if self.o.cs["tightCoupling"]:
+            return
+        if self._db.hasTimeStep(cycle, node):
+            return
+        self.writeDBEveryNode()
+
+    import re as _re
+
     db_mutants = [
         ("writeToDB silently overwrites an existing snapshot", lambda: patched(D, "getH5Group", overwrite_group)),
         ("hasTimeStep ignores the label", lambda: patched(D, "hasTimeStep", has_step_ignores_label)),
@@ -1481,6 +1561,17 @@ def selftest():
          V(DI, "loadState", "statePointName=timeStepName,\n                        cs=self.cs,", "cs=self.cs,")),
         ("splitDatabase takes the re-basing offset from the first step of the list, not the smallest (round 2, seed 1)",
          V(D, "splitDatabase", "minCycle = next(iter(sorted(keepTimeSteps)))[0]", "minCycle = next(iter(keepTimeSteps))[0]")),
+        ("getHistories answers None, not the default, for a parameter no object had assigned at a step (round 3, seed 1)",
+         V(D, "getHistories", "data = np.repeat(\n                            parameters.byNameAndType(paramName, compType).default,\n"
+                              "                            len(reorderedComps),\n                        )",
+           "data = np.array([None] * len(reorderedComps))")),
+        ("time-step groups are recognised only when the label is a word (round 3, seed 3)",
+         lambda: patched(D, "timeNodeGroupPattern", _re.compile(r"^c(\d\d)n(\d\d)\w*$"))),
+        ("DatabaseInterface.getHistory adds the live value only while the current step is unwritten (round 3, seed 4)",
+         V(DI, "getHistory", "        if nowRequested:\n            for param in params or history.keys():",
+           "        if nowRequested and not self.database.hasTimeStep(*now):\n            for param in params or history.keys():")),
+        ("loadBlueprints caches the parsed blueprints on the Database object (round 3, seed 5)",
+         lambda: patched(D, "loadBlueprints", load_blueprints_cached)),
         ("history tracker answers every step with the live value",
          V(HT, "getBlockHistoryVal", "if self._isCurrentTimeStep(ts) and not self._databaseHasDataForTimeStep(ts):", "if True:")),
         ("Database.__exit__ closes as successful although an exception is passing",
@@ -1507,12 +1598,30 @@ def selftest():
            "                yield Database(self.cs[\"reloadDBName\"], \"r\")",
            "            if os.path.exists(self.cs[\"reloadDBName\"]):\n                yield Database(self.cs[\"reloadDBName\"], \"r\")\n"
            "            if self._db is not None:\n                yield self._db")),
+        ("interactEveryNode does not write a node whose group exists already (round 3, seed 2)",
+         lambda: patched(DI, "interactEveryNode", every_node_skips_existing_group)),
         ("prepRestartRun merges one node too many", V(DI, "prepRestartRun", "self._db.mergeHistory(inputDB, startCycle, startNode)", "self._db.mergeHistory(inputDB, startCycle, startNode + 1)")),
         ("prepRestartRun does not merge the history", V(DI, "prepRestartRun", "self._db.mergeHistory(inputDB, startCycle, startNode)", "pass")),
         ("writeDBEveryNode stores every node but the first of a cycle under a label", V(DI, "writeDBEveryNode", "self._db.writeToDB(self.r)", "self._db.writeToDB(self.r, 'x' if self.r.p.timeNode else None)")),
     ]
     only = os.environ.get("C06_SELFTEST", "")  # "db" / "run": one half only
     pick = os.environ.get("C06_MUTANT", "")    # substring of a mutant's label: only those
+    orig_load_bp = D.loadBlueprints
+
+    def load_blueprints_cached(self):
+        if getattr(self, "_c06_blueprints", None) is None:
+            self._c06_blueprints = orig_load_bp(self)
+        return self._c06_blueprints
+
+    def every_node_skips_existing_group(self, cycle, node):
+        if self.o.cs["tightCoupling"]:
+            return
+        if self._db.hasTimeStep(cycle, node):
+            return
+        self.writeDBEveryNode()
+
+    import re as _re
+
     db_mutants = [m for m in db_mutants if pick in m[0]]
     run_mutants_list = [m for m in run_mutants_list if pick in m[0]]
     rc = 0
